@@ -4,7 +4,7 @@
    width/combining/NFC oracle (section variables) and every state / parameter (no bound on sizes). *)
 From Coq Require Import NArith List Bool.
 From MT Require Import Lib Types Tables Screen Spec Stmt.
-From MT.Proofs Require Import WF P05 RefineReset.
+From MT.Proofs Require Import WF Aeq P05 RefineReset SpecAll RefineModes OracleSound.
 Open Scope N_scope.
 
 (* the code computes the closed form: for every well-formed state, every movement operation, every argument *)
@@ -60,6 +60,17 @@ Proof. exact c05_keeps_AWF. Qed.
 Example C05_nonvacuous : WF (init 10 5) /\ AWF (abs (init 10 5)).
 Proof. split; [|apply AWF_abs]; apply WF_init; discriminate. Qed.
 
+(* the statement oracle: the boolean predicate that the driver evaluates on snapshots of the IMPLEMENTATION (extracted from
+   Stmt.spec_ok) is exactly the relation of the theorems — a `true` means that the implementation's post-state is observationally
+   the closed form of its own pre-state — and the code model satisfies that very predicate for every well-formed state and every
+   operation (all 42, not only the movement operations of this property) *)
+Theorem C05_oracle_true_means_closed_form : forall wid is_comb nfc (pre : screen) (o : op) (post : screen),
+  spec_ok wid is_comb nfc pre o post = true <-> Aeq (abs post) (astep wid is_comb nfc (abs pre) o).
+Proof. exact spec_ok_sound. Qed.
+Theorem C05_model_satisfies_the_oracle : forall wid is_comb nfc (s : screen) (o : op), WF s -> SCm s -> args_ok o ->
+  spec_ok wid is_comb nfc s o (step wid is_comb nfc s o) = true.
+Proof. exact spec_ok_of_model. Qed.
+
 Print Assumptions C05_code_refines_spec.
 Print Assumptions C05_only_the_position_changes.
 Print Assumptions C05_relative_motion.
@@ -67,3 +78,5 @@ Print Assumptions C05_CHA.
 Print Assumptions C05_CUP.
 Print Assumptions C05_cursor_stays_on_screen.
 Print Assumptions C05_nonvacuous.
+Print Assumptions C05_oracle_true_means_closed_form.
+Print Assumptions C05_model_satisfies_the_oracle.
